@@ -33,6 +33,7 @@ import (
 	"github.com/ollama/ollama/envconfig"
 	"github.com/ollama/ollama/format"
 	"github.com/ollama/ollama/fs/ggml"
+	"github.com/ollama/ollama/template"
 	"github.com/ollama/ollama/types/model"
 	"github.com/ollama/ollama/zzverif"
 )
@@ -79,6 +80,7 @@ type c04Op struct {
 	Tmpl    []byte // nil = not given
 	TmplOK  bool
 	Sys     []byte
+	Lics    [][]byte
 	Params  [][2]string // key, raw JSON value
 	Src     c04Name
 	Dst     c04Name
@@ -111,7 +113,11 @@ func (o c04Op) line() string {
 		if o.TmplOK {
 			ok = "1"
 		}
-		sb.WriteString(" " + c04OptHex(o.Tmpl) + " " + ok + " " + c04OptHex(o.Sys) + " " + strconv.Itoa(len(o.Params)))
+		sb.WriteString(" " + c04OptHex(o.Tmpl) + " " + ok + " " + c04OptHex(o.Sys) + " " + strconv.Itoa(len(o.Lics)))
+		for _, l := range o.Lics {
+			sb.WriteString(" " + zzverif.Hex(l))
+		}
+		sb.WriteString(" " + strconv.Itoa(len(o.Params)))
 		for _, kv := range o.Params {
 			sb.WriteString(" " + zzverif.Hex([]byte(kv[0])) + " " + zzverif.Hex([]byte(kv[1])))
 		}
@@ -185,6 +191,9 @@ func c04ParseOp(s string) c04Op {
 		o.Tmpl = p.optBytes()
 		o.TmplOK = p.next() == "1"
 		o.Sys = p.optBytes()
+		for i, k := 0, p.int(); i < k; i++ {
+			o.Lics = append(o.Lics, zzverif.Unhex(p.next()))
+		}
 		k := p.int()
 		for i := 0; i < k; i++ {
 			a := string(zzverif.Unhex(p.next()))
@@ -287,6 +296,15 @@ func (s *c04Server) exec(o c04Op) string {
 		}
 		if o.Sys != nil {
 			req["system"] = string(o.Sys)
+		}
+		if len(o.Lics) == 1 {
+			req["license"] = string(o.Lics[0])
+		} else if len(o.Lics) > 1 {
+			var ls []string
+			for _, l := range o.Lics {
+				ls = append(ls, string(l))
+			}
+			req["license"] = ls
 		}
 		if len(o.Params) > 0 {
 			p := map[string]any{}
@@ -582,7 +600,13 @@ type c04Pool struct {
 	badT  []byte
 	syss  [][]byte
 	parms [][2]string
+	lics  [][]byte
 	meta  []string // oracle `meta` lines
+	autoT map[string]bool // hex ids of auto-detected template contents
+	autoP map[string]bool // hex ids of auto-detected parameter contents
+	chatG []byte          // a GGUF with a recognised chat template that has parameters …
+	chatP []byte          // … and the JSON of those parameters
+	chatT []byte          // … and the bytes of the named template
 }
 
 func c04Sum(b []byte) string {
@@ -592,8 +616,32 @@ func c04Sum(b []byte) string {
 
 func c04HexS(s string) string { return zzverif.Hex([]byte(s)) }
 
-func c04MakePool(t *testing.T) *c04Pool {
-	p := &c04Pool{}
+func c04MakePool(t *testing.T, out *zzverif.Out) *c04Pool {
+	p := &c04Pool{autoT: map[string]bool{}, autoP: map[string]bool{}}
+	// plain override texts first (the directed scenarios use index 0); texts taken from the auto-detected
+	// layers are appended below, so that overrides are often byte-identical to layers other models have
+	p.lics = [][]byte{[]byte("MIT"), []byte("Apache-2.0 text"), []byte("You are terse.")} // the last one equals a system text
+	p.tmpls = [][]byte{[]byte("{{ .Prompt }}"), []byte("{{ .System }} {{ .Prompt }}"), []byte("<|u|>{{ .Prompt }}<|a|>")}
+	p.syss = [][]byte{[]byte("You are terse."), []byte("Say hi!"), []byte("{{ .Prompt }}")} // the last one equals a template text
+	p.parms = [][2]string{{"num_ctx", "2048"}, {"num_ctx", "4096"}, {"seed", "7"}, {"stop", "\"xy\""}, {"temperature", "0.5"}, {"top_k", "40"}}
+	// chat templates that server/template recognises (template/index.json), taken through the package itself
+	chat := func(name string) string {
+		raw, err := os.ReadFile(filepath.Join("..", "template", "index.json"))
+		if err != nil {
+			t.Fatal(err)
+		}
+		var idx []struct{ Name, Template string }
+		if err := json.Unmarshal(raw, &idx); err != nil {
+			t.Fatal(err)
+		}
+		for _, e := range idx {
+			if e.Name == name {
+				return e.Template
+			}
+		}
+		t.Fatal("no chat template " + name)
+		return ""
+	}
 	type spec struct {
 		kv ggml.KV
 		ts []ggml.Tensor
@@ -610,6 +658,12 @@ func c04MakePool(t *testing.T) *c04Pool {
 		{ggml.KV{"general.architecture": "qwen2", "general.file_type": uint32(7), "general.name": "q"}, []ggml.Tensor{tensor("t", 5)}},
 		{ggml.KV{"general.architecture": "phi3", "phi3.context_length": uint32(8)}, nil},
 		{ggml.KV{"general.architecture": "llama", "general.name": "other"}, []ggml.Tensor{tensor("x", 1)}},
+		// GGUFs whose chat template is recognised: create adds auto-detected template (+ params) layers
+		{ggml.KV{"general.architecture": "llama", "tokenizer.chat_template": chat("chatml")}, nil},
+		{ggml.KV{"general.architecture": "qwen2", "tokenizer.chat_template": chat("chatml"), "general.name": "c2"}, nil},
+		{ggml.KV{"general.architecture": "phi3", "tokenizer.chat_template": chat("phi-3")}, []ggml.Tensor{tensor("p", 1)}},
+		{ggml.KV{"general.architecture": "llama", "tokenizer.chat_template": chat("alpaca")}, nil},
+		{ggml.KV{"general.architecture": "llama", "tokenizer.chat_template": "{% nothing the template package knows, long enough to be far from every known chat template: 0123456789 0123456789 0123456789 0123456789 0123456789 0123456789 0123456789 %}"}, nil},
 	}
 	dir := t.TempDir()
 	for i, sp := range specs {
@@ -632,14 +686,46 @@ func c04MakePool(t *testing.T) *c04Pool {
 		if err != nil {
 			t.Fatal(err)
 		}
-		p.meta = append(p.meta, fmt.Sprintf("meta %s %s %s %s", zzverif.Hex(b), c04HexS(g.KV().Architecture()),
-			c04HexS(format.HumanNumber(g.KV().ParameterCount())), c04HexS(g.KV().FileType().String())))
+		// detectChatTemplate, call for call: template.Named on the GGUF's chat template, the bytes of the named
+		// template and the JSON encoding of its parameters
+		var autoT, autoP []byte
+		if ct := g.KV().ChatTemplate(); ct != "" {
+			if nt, err := template.Named(ct); err == nil {
+				autoT, err = io.ReadAll(nt.Reader())
+				if err != nil {
+					t.Fatal(err)
+				}
+				if len(autoT) == 0 {
+					autoT = []byte{}
+				}
+				p.autoT[c04Sum(autoT)] = true
+				if nt.Parameters != nil {
+					var pb bytes.Buffer
+					if err := json.NewEncoder(&pb).Encode(nt.Parameters); err != nil {
+						t.Fatal(err)
+					}
+					autoP = pb.Bytes()
+					p.autoP[c04Sum(autoP)] = true
+					if p.chatG == nil {
+						p.chatG, p.chatP, p.chatT = b, autoP, autoT
+					}
+					stop, _ := json.Marshal(nt.Parameters.Stop)
+					p.parms = append(p.parms, [2]string{"stop", string(stop)})
+					p.syss = append(p.syss, autoP)
+					p.lics = append(p.lics, autoP)
+					p.tmpls = append(p.tmpls, autoP)
+				}
+				p.tmpls = append(p.tmpls, autoT)
+				p.syss = append(p.syss, autoT)
+				out.Count("pool_gguf_with_recognised_chat_template")
+			}
+		}
+		p.meta = append(p.meta, fmt.Sprintf("meta %s %s %s %s %s %s", zzverif.Hex(b), c04HexS(g.KV().Architecture()),
+			c04HexS(format.HumanNumber(g.KV().ParameterCount())), c04HexS(g.KV().FileType().String()),
+			c04OptHex(autoT), c04OptHex(autoP)))
 	}
 	p.texts = [][]byte{[]byte("not a gguf file\n"), []byte("{\"a\":1}")}
-	p.tmpls = [][]byte{[]byte("{{ .Prompt }}"), []byte("{{ .System }} {{ .Prompt }}"), []byte("<|u|>{{ .Prompt }}<|a|>")}
 	p.badT = []byte("{{ .Prompt")
-	p.syss = [][]byte{[]byte("You are terse."), []byte("Say hi!"), []byte("{{ .Prompt }}")} // the last one equals a template text
-	p.parms = [][2]string{{"num_ctx", "2048"}, {"num_ctx", "4096"}, {"seed", "7"}, {"stop", "\"xy\""}, {"temperature", "0.5"}, {"top_k", "40"}}
 	return p
 }
 
@@ -740,7 +826,13 @@ func (r *c04Run) apply(o c04Op) {
 			b := post.blob(key)
 			switch {
 			case b == nil:
-				r.l2("listed-incomplete", fmt.Sprintf("model=%s layer=%s problem=blob-missing dashref=%s op=%s result=%s", n.full(), l.Digest, r.dashref(key), o.Kind, result))
+				auto := "no"
+				if r.pool.autoP[key] {
+					auto = "params"
+				} else if r.pool.autoT[key] {
+					auto = "template"
+				}
+				r.l2("listed-incomplete", fmt.Sprintf("model=%s layer=%s problem=blob-missing dashref=%s op=%s result=%s media=%s autocontent=%s", n.full(), l.Digest, r.dashref(key), o.Kind, result, c04MediaCode[l.MediaType], auto))
 				bad = true
 			case b.size != l.Size:
 				r.l2("listed-incomplete", fmt.Sprintf("model=%s layer=%s problem=size manifest=%d file=%d", n.full(), l.Digest, l.Size, b.size))
@@ -970,6 +1062,11 @@ func (g *c04Gen) overrides(o *c04Op, p int) {
 	if g.r.Chance(p, 10) {
 		o.Sys = zzverif.Pick(g.r, g.pool.syss)
 	}
+	if g.r.Chance(p, 20) {
+		for i, k := 0, g.r.Range(1, 2); i < k; i++ {
+			o.Lics = append(o.Lics, zzverif.Pick(g.r, g.pool.lics))
+		}
+	}
 	if g.r.Chance(p, 10) {
 		k := g.r.Range(1, 2)
 		seen := map[string]bool{}
@@ -1074,6 +1171,9 @@ func (g *c04Gen) next(sn *c04Snap) c04Op {
 		return g.uploadOp()
 	case x < 45: // create from files
 		o := c04Op{Kind: "create", Name: g.name()}
+		if n, ok := g.existing(sn, true); ok && g.r.Chance(1, 3) {
+			o.Name = n // re-create an existing name with other files / overrides
+		}
 		k := 1
 		if g.r.Chance(1, 4) {
 			k = 2
@@ -1081,7 +1181,7 @@ func (g *c04Gen) next(sn *c04Snap) c04Op {
 		for i := 0; i < k; i++ {
 			o.Files = append(o.Files, g.fileDigest(sn))
 		}
-		g.overrides(&o, 3)
+		g.overrides(&o, 4)
 		return o
 	case x < 63: // create from an existing model
 		src, _ := g.existing(sn, false)
@@ -1149,7 +1249,7 @@ func (r *c04Run) end() {
 // c04Probe runs three small experiments on the REAL code and reports which of the repairs F16a / F16b / N1
 // the tree contains (the oracle then models exactly that variant).  Each repair has more than one
 // observable facet; facets that disagree are reported as an L2 failure `variant-probe`.
-func c04Probe(t *testing.T, base string, pool *c04Pool, out *zzverif.Out) (fixAlias, fixResolve, fixReturn bool) {
+func c04Probe(t *testing.T, base string, pool *c04Pool, out *zzverif.Out) (fixAlias, fixResolve, fixReturn, fixKeep bool) {
 	g0 := pool.ggufs[0]
 	h0 := c04Sum(g0)
 	nm := func(ns, m string) c04Name { return c04Name{"registry.ollama.ai", ns, m, "latest"} }
@@ -1231,16 +1331,25 @@ func c04Probe(t *testing.T, base string, pool *c04Pool, out *zzverif.Out) (fixAl
 	default:
 		out.L2("variant-probe", "", "N1: unexpected events "+res)
 	}
+	// N2: a SYSTEM text byte-identical to the auto-detected parameters of the GGUF, parameters that change them
+	s = fresh("k")
+	s.exec(c04Op{Kind: "upload", Content: pool.chatG, D: c04Digest{Hex: c04Sum(pool.chatG)}})
+	s.exec(c04Op{Kind: "create", Name: nm("library", "a"), Files: []c04Digest{{Hex: c04Sum(pool.chatG)}}, Sys: pool.chatP,
+		Params: [][2]string{{"num_ctx", "2048"}}})
+	_, err := os.Stat(filepath.Join(s.dir, "blobs", "sha256-"+c04Sum(pool.chatP)))
+	fixKeep = err == nil
+
 	b := func(x bool) int {
 		if x {
 			return 1
 		}
 		return 0
 	}
+	out.Add("variant_fixKeep", b(fixKeep))
 	out.Add("variant_fixAlias", b(fixAlias))
 	out.Add("variant_fixResolve", b(fixResolve))
 	out.Add("variant_fixReturn", b(fixReturn))
-	out.Case(fmt.Sprintf("variant %d %d %d", b(fixAlias), b(fixResolve), b(fixReturn)), "ok")
+	out.Case(fmt.Sprintf("variant %d %d %d %d", b(fixAlias), b(fixResolve), b(fixReturn), b(fixKeep)), "ok")
 	return
 }
 
@@ -1248,12 +1357,12 @@ func TestVerifC04(t *testing.T) {
 	gin.SetMode(gin.TestMode)
 	out := zzverif.NewOut()
 	defer out.Close()
-	pool := c04MakePool(t)
+	pool := c04MakePool(t, out)
 	for _, m := range pool.meta {
 		out.Case(m, "ok")
 	}
 	base := t.TempDir()
-	_, fixResolve, _ := c04Probe(t, base, pool, out)
+	_, fixResolve, _, _ := c04Probe(t, base, pool, out)
 	run := &c04Run{t: t, out: out, pool: pool}
 	hist := 0
 
@@ -1312,6 +1421,17 @@ func TestVerifC04(t *testing.T) {
 		// a manifest that spells its model layer sha256-<hex> by other means than create, then delete + prune
 		{up(g0), mk(nm("library", "a"), false, g0), mk(nm("library", "b"), false, g0), {Kind: "dashify", Name: nm("library", "b")},
 			{Kind: "delete", Name: nm("library", "a")}, {Kind: "prune"}},
+		// auto-detected template + parameters layers (recognised chat template) and overrides byte-identical to them
+		{up(pool.chatG), {Kind: "create", Name: nm("library", "a"), Files: []c04Digest{{Hex: c04Sum(pool.chatG)}}},
+			{Kind: "create", Name: nm("library", "b"), Files: []c04Digest{{Hex: c04Sum(pool.chatG)}}, Tmpl: pool.chatT, TmplOK: true},
+			{Kind: "delete", Name: nm("library", "a")}, {Kind: "delete", Name: nm("library", "b")},
+			// explicit TEMPLATE equal to the auto-detected one while no manifest references that blob
+			{Kind: "create", Name: nm("library", "c"), Files: []c04Digest{{Hex: c04Sum(pool.chatG)}}, Tmpl: pool.chatT, TmplOK: true},
+			{Kind: "create", Name: nm("library", "c"), Files: []c04Digest{{Hex: c04Sum(pool.chatG)}}, Tmpl: pool.chatT, TmplOK: true, Sys: pool.chatT},
+			{Kind: "prune"}},
+		// SYSTEM equal to the auto-detected parameters, PARAMETERS that change them (N2)
+		{up(pool.chatG), {Kind: "create", Name: nm("library", "a"), Files: []c04Digest{{Hex: c04Sum(pool.chatG)}}, Sys: pool.chatP,
+			Params: [][2]string{{"num_ctx", "2048"}}}},
 		// create whose FROM cannot be resolved: the handler reports the error and carries on
 		{up(g0), mk(nm("library", "a"), false, g0), {Kind: "create", Name: nm("library", "a"), From: &c04Name{"localhost:9", "nobody", "missing", "latest"}, Sys: pool.syss[0]}},
 		// sharing patterns of the property's `why_tests_cant`, no aliasing: must hold
